@@ -20,7 +20,7 @@ EXTENDS Integers, Sequences, FiniteSets
 \* own IMPORTS bring in, a path whose last segment *ends in* that symbol's Rust name (a user type PinnedCertificate next to an
 \* imported Certificate)
 ImportChoices == {0, 1, 3, 9}
-AnnChoices == {"default", "extra_derives", "extra_attr", "twice", "with_copy"}
+AnnChoices == {"default", "extra_derives", "extra_attr", "twice", "with_copy", "path_derive"}
 Cfg == [opaque : BOOLEAN, wild : BOOLEAN, from : BOOLEAN, nostd : BOOLEAN, imports : ImportChoices, ann : AnnChoices]
 Default == [opaque |-> TRUE, wild |-> FALSE, from |-> FALSE, nostd |-> FALSE, imports |-> 0, ann |-> "default"]
 
@@ -37,9 +37,12 @@ Annotations(a) ==
       [] a = "twice" -> <<DefaultLine, "#[derive(Eq, Hash, Eq)]", DefaultLine>>
       \* Copy is a derive the generator adds on its own to some types: listed by the user too, and not last
       [] a = "with_copy" -> <<"#[derive(Clone, Copy)]", DefaultLine>>
+      \* a derive given by path and one with an underscore, next to a required one in the same attribute
+      [] a = "path_derive" -> <<DefaultLine, "#[derive(Debug, verif_s::Pinned, Verif_repr)]">>
 
 Required == {"AsnType", "Debug", "Clone", "Decode", "Encode", "PartialEq"}
-ExtraDerives(a) == IF a = "extra_derives" THEN {"PartialOrd", "Ord"} ELSE IF a = "with_copy" THEN {"Copy"} ELSE {}
+ExtraDerives(a) == IF a = "extra_derives" THEN {"PartialOrd", "Ord"} ELSE IF a = "with_copy" THEN {"Copy"}
+                   ELSE IF a = "path_derive" THEN {"verif_s::Pinned", "Verif_repr"} ELSE {}
 ExtraAttrs(a) == IF a = "extra_attr" THEN <<"#[allow(dead_code)]", "#[cfg_attr(feature=\"verif\",repr(C))]">> ELSE <<>>
 
 --------------------------------------------------------------------------------
